@@ -128,6 +128,10 @@ def run_child(job, hashseed):
 
 
 QUERIES = [("sat", "none"), ("eval", "x", 9, "none"), ("min", "x", "s", "none"), ("max", "x", "u", "y<u2"), ("beval", "x,y", 9, "none"), ("sol", "x", 5, "none"), ("add", "x<u5"), ("eval", "x", 9, "none"), ("sat", "x==6")]
+# unsigned and signed optimum of one expression back to back (their caches must stay separate after a round trip);
+# histories alternate between the two orders and between pair-first / pair-last
+TAIL_A = [("max", "x", "u", "none"), ("max", "x", "s", "none"), ("min", "x", "s", "none"), ("min", "x", "u", "none")]
+TAIL_B = [("max", "x", "s", "none"), ("max", "x", "u", "none"), ("min", "x", "u", "none"), ("min", "x", "s", "none")]
 
 
 def _solver_job(args):
@@ -163,11 +167,13 @@ def _solver_job(args):
                 H.apply_event(twin, ev, check=False)
             twin.failure = None
             twin_bad = None
-            for qi, q in enumerate(QUERIES):
+            # the pair first for half of the histories: after `eval x 9` every model of the 3-bit universe is cached
+            battery = [QUERIES + TAIL_A, TAIL_B + QUERIES, TAIL_A + QUERIES, QUERIES + TAIL_B][i % 4]
+            for qi, q in enumerate(battery):
                 if not H.apply_event(twin, q, check=True):
                     twin_bad = qi
                     break
-            queries = QUERIES if twin_bad is None else QUERIES[:twin_bad]
+            queries = battery if twin_bad is None else battery[:twin_bad]
             if twin_bad is not None:
                 part.count("queries_dropped_because_unpickled_twin_is_wrong_too")
             items.append({"id": case, "cls": cls, "cfg": cfg, "ref": list(run.ref), "blob": blob, "queries": [list(q) for q in queries]})
@@ -271,7 +277,7 @@ def run(tier: str) -> int:
         rule="expressions: all E1 states up to depth 2 (w=2,3) + annotated / FP / string expressions, round-tripped "
         "in-process (identity) and in child interpreters with PYTHONHASHSEED 1, 2, random (canonical structure, metadata "
         "and truth-table digest recomputed in the child); solvers: every state reached by a history of <=2 events (adds, "
-        "eval, max, simplify, branch) for every frontend class, pickled and queried (9-query battery incl. a further add) "
+        "eval, max, simplify, branch) for every frontend class, pickled and queried (13-query battery incl. a further add and unsigned/signed optimum pairs in both orders) "
         "in-process and in the child interpreters, every answer checked against the brute-force oracle",
     )
     seeds = [1, 2, "random"] if tier == "thorough" else [1, "random"]
